@@ -65,10 +65,21 @@ def col_tol(cls, written):
     return 0.5e-6 * (1 + 1e-9) + ulp
 
 
+import json as _json, os as _os
+with open(_os.path.join(_os.path.dirname(_os.path.dirname(_os.path.abspath(__file__))), "pinned_columnfile_formats.json")) as _fh:
+    _P = _json.load(_fh)
+PINNED_CLASSES = {c: list(_P[c]) for c in ("FLOATS", "INTS", "LONGFLOATS", "EXPONENTIALS")}
+
+
 def columnfile_case(run, seed, idx, columnfile, parameters):
     r = rng(seed, "C18", "cf", idx)
-    classes = {"FLOATS": columnfile.FLOATS, "INTS": columnfile.INTS, "LONGFLOATS": columnfile.LONGFLOATS,
-               "EXPONENTIALS": columnfile.EXPONENTIALS, "UNKNOWN": UNKNOWN}
+    # the documented print precision of a title is the module-level table of the pinned commit, kept as a copy in
+    # vlib/pinned_columnfile_formats.json (taking it from the tree under test would let a title that silently drops out of
+    # a table - and is then printed with the 6-decimal fallback - define its own, lower, expectation)
+    classes = dict(PINNED_CLASSES, UNKNOWN=UNKNOWN)
+    for c in ("FLOATS", "INTS", "LONGFLOATS", "EXPONENTIALS"):
+        if set(getattr(columnfile, c)) != set(PINNED_CLASSES[c]):
+            run.count("format_table_differs_from_pinned:" + c)
     ncol = int(r.integers(1, 12))
     titles, tcls = [], {}
     while len(titles) < ncol:
